@@ -1,7 +1,7 @@
 (* C13 -- configuration mistakes are rejected up front and leave nothing patched. *)
 From Coq Require Import List ZArith Bool Arith Lia String.
 From Goom Require Import Model.Errors Model.Patch Proofs.PatchProofs Tie.OrderTie Tie.SkeletonTie.
-From Goom Require Gen.Erro Gen.PatchOrder Gen.SigSkeleton Gen.ArgSkeleton.
+From Goom Require Gen.Erro Gen.PatchOrder Gen.SigSkeleton Gen.ArgSkeleton Gen.ProxySkeleton.
 Import ListNotations.
 Open Scope Z_scope.
 
@@ -102,3 +102,34 @@ Theorem C13_signature_check_is_source :
   List.length Gen.SigSkeleton.SignatureEquals_skeleton = 11%nat /\ List.length Gen.ArgSkeleton.I2V_skeleton = 20%nat.
 Proof. rewrite sig_skeleton_tie, i2v_skeleton_tie. split; reflexivity. Qed.
 Print Assumptions C13_signature_check_is_source.
+
+(* ---- interface callbacks: accepted exactly when, after the *IContext, they have the method's shape ---- *)
+Theorem C13_iface_callback_iff : forall method imp,
+  iface_imp_check method imp = SigOk <->
+  exists ctx, s_ins imp = ctx :: s_ins method /\ s_outs imp = s_outs method.
+Proof.
+  intros method imp. unfold iface_imp_check. destruct (s_ins imp) as [|c rest] eqn:E.
+  - split; [discriminate|]. intros [ctx [H _]]. discriminate.
+  - rewrite C13_sig_equals_iff. cbn [s_ins s_outs]. split.
+    + intros [H1 H2]. exists c. rewrite H1, H2. split; reflexivity.
+    + intros [ctx [H1 H2]]. inversion H1. subst. split; [reflexivity|symmetry; exact H2].
+Qed.
+Print Assumptions C13_iface_callback_iff.
+(* that rule and the refusal of unknown method names are the source's, and both precede every statement of
+   proxy.Interface that touches the variable or the context (regenerated skeletons, Tie/SkeletonTie) *)
+Theorem C13_iface_checks_are_source_and_precede_writes :
+  List.length Gen.ProxySkeleton.checkInterfaceImp_skeleton = 13%nat /\
+  List.length Gen.ProxySkeleton.methodIndexOf_skeleton = 4%nat /\
+  forallb (fun c => forallb (fun w => sk_before c w Gen.ProxySkeleton.Interface_skeleton) iface_writes) iface_checks = true.
+Proof.
+  rewrite iface_imp_skeleton_tie, method_index_skeleton_tie. split; [reflexivity|]. split; [reflexivity|].
+  exact iface_checks_before_writes.
+Qed.
+Print Assumptions C13_iface_checks_are_source_and_precede_writes.
+Example C13_iface_callback_nonvacuous :
+  iface_imp_check {| s_ins := [8]; s_outs := [8] |} {| s_ins := [8; 8]; s_outs := [8] |} = SigOk /\
+  iface_imp_check {| s_ins := [8]; s_outs := [8] |} {| s_ins := [8; 8; 8]; s_outs := [8] |} = SigArgsLen /\
+  iface_imp_check {| s_ins := [8]; s_outs := [8] |} {| s_ins := [8; 8]; s_outs := [8; 8] |} = SigRetsLen /\
+  iface_imp_check {| s_ins := [8]; s_outs := [8] |} {| s_ins := [8; 16]; s_outs := [8] |} = SigArgSize 0 /\
+  iface_imp_check {| s_ins := [8]; s_outs := [8] |} {| s_ins := [8; 8]; s_outs := [1] |} = SigRetSize 0.
+Proof. vm_compute. repeat split; reflexivity. Qed.
